@@ -246,6 +246,103 @@ func suiteSpecs() []fieldSpec {
 // checkRESTEndpoints verifies routing, method gate, field mapping and per-request decoding of the given
 // endpoints (all ten when none is named). Used by C18 and, for the endpoint that exposes their
 // operation, by the library properties.
+// rulePrechecks (REST.6): before the library sees them, the secret and the submitted code are only tested
+// for presence. Every branch condition in the handler and in the service-layer functions it calls
+// (conditions of callees are read with the caller's arguments substituted) that depends on the Secret or
+// Code request field other than through a library result must be an emptiness test of the (trimmed) field:
+// a service-layer pre-check that judges the spelling would make the endpoint disagree with the library on
+// which spellings are accepted.
+func rulePrechecks(c *Check, w *World, tb *TB, rule string, h *ssa.Function, needSecret bool) {
+	fn := FuncName(h)
+	isLib := func(t *Term) bool {
+		if t.Op != "call" {
+			return false
+		}
+		cl, ok := t.Val.(*ssa.Call)
+		if !ok || cl.Call.StaticCallee() == nil {
+			return false
+		}
+		g := cl.Call.StaticCallee()
+		if fnPkgPath(g) == OtpPath {
+			return true
+		}
+		// a service-layer helper returning only an error: which error it returns is decided by its own
+		// branch conditions, which are walked with the arguments substituted
+		return w.InModule(g) && g.Blocks != nil && g.Signature.Results().Len() == 1 && isErrorType(g.Signature.Results().At(0).Type())
+	}
+	var mentions func(t *Term, field string) bool
+	mentions = func(t *Term, field string) bool {
+		if isLib(t) {
+			return false
+		}
+		if t.Op == "field" && t.Sym == field {
+			return true
+		}
+		for _, a := range t.Args {
+			if mentions(a, field) {
+				return true
+			}
+		}
+		return false
+	}
+	presence := func(t *Term, field string) bool {
+		if t.Op != "bin" || (t.Sym != "==" && t.Sym != "!=") || len(t.Args) != 2 {
+			return false
+		}
+		x := t.Args[1]
+		if !(t.Args[0].IsConst() && t.Args[0].Sym == `""`) {
+			if !(t.Args[1].IsConst() && t.Args[1].Sym == `""`) {
+				return false
+			}
+			x = t.Args[0]
+		}
+		if x.Op == "call" && x.Sym == "strings.TrimSpace" && len(x.Args) == 1 {
+			x = x.Args[0]
+		}
+		return x.Op == "field" && x.Sym == field
+	}
+	n := 0
+	seen := map[string]bool{}
+	var walk func(f *ssa.Function, e *Env, depth int)
+	walk = func(f *ssa.Function, e *Env, depth int) {
+		if depth > 4 || f.Blocks == nil {
+			return
+		}
+		EachInstr(f, func(in ssa.Instruction) {
+			switch x := in.(type) {
+			case *ssa.If:
+				t := tb.Val(x.Cond, e)
+				for _, field := range []string{"Secret", "Code"} {
+					if !mentions(t, field) {
+						continue
+					}
+					key := FuncName(f) + ":" + field + ":" + clip(t.String(), 80)
+					if seen[key] {
+						continue
+					}
+					seen[key] = true
+					n++
+					c.Decide(presence(t, field), rule, fn, "precheck:"+key, "the "+field+" field is only tested for presence before the library sees it", "the service layer judges the "+field+" field itself ("+clip(t.String(), 160)+"): spellings the library accepts can be refused (or the reverse), so the endpoint no longer agrees with the library", w.InstrPos(in))
+				}
+			case ssa.CallInstruction:
+				g := x.Common().StaticCallee()
+				if g == nil || !w.InModule(g) || fnPkgPath(g) == OtpPath {
+					return
+				}
+				var args []*Term
+				for _, a := range x.Common().Args {
+					args = append(args, tb.Val(a, e))
+				}
+				walk(g, &Env{Fn: g, Params: args}, depth+1)
+			}
+		})
+	}
+	walk(h, nil, 0)
+	if n == 0 && needSecret {
+		c.Unk(rule, fn, "precheck", "no presence test of the secret found in the handler or its validators", w.Pos(h.Pos()))
+	}
+}
+
 func checkRESTEndpoints(c *Check, w *World, tb *TB, ef *Effects, pfx string, only ...string) {
 	if w.SPkgs[ApiPath] == nil {
 		return
@@ -385,6 +482,7 @@ func restRules(c *Check, w *World, tb *TB, ef *Effects, pfx string, only []strin
 		}
 		return out
 	}
+	prechecked := map[*ssa.Function]bool{}
 	checkArgs := func(path, lib string, argSpecs []interface{}, respField string) {
 		r, ok := byPath[path]
 		if !ok || r.handler == nil || !sel(path) {
@@ -392,6 +490,10 @@ func restRules(c *Check, w *World, tb *TB, ef *Effects, pfx string, only []strin
 		}
 		hi := analyseHandler(w, tb, r.handler)
 		fn := FuncName(r.handler)
+		if !prechecked[r.handler] {
+			prechecked[r.handler] = true
+			rulePrechecks(c, w, tb, pfx+".6", r.handler, lib != "SuiteConfigFromRaws" && lib != "ListSuites" && lib != "RandomSecret")
+		}
 		calls := libCallsOf(r.handler)[lib]
 		if len(calls) != 1 {
 			c.Bad(pfx+".2", fn, "call:"+lib, fmt.Sprintf("%d calls of otp.%s in the handler of %s, expected one", len(calls), lib, path), w.Pos(r.handler.Pos()))
@@ -455,13 +557,34 @@ func restRules(c *Check, w *World, tb *TB, ef *Effects, pfx string, only []strin
 	urlSpecs := []fieldSpec{{"Issuer", []string{"$issuer"}}, {"Secret", secretForms}, {"Period", []string{"$period"}}, {"Digits", []string{tDigits}}, {"Algorithm", []string{tAlgo}}, {"AccountName", []string{"$account_name"}}}
 	checkArgs("/otp/url", "GenerateTOTPURL", []interface{}{urlSpecs}, "")
 	checkArgs("/otp/url", "GenerateHOTPURL", []interface{}{urlSpecs}, "")
+	var suiteArgsSeen []string
 	suiteArg := func(g string) string {
-		// the suite handed to the library: built from the structured suite, overridden by raw_suite
+		// the suite handed to the library: raw_suite, when given, selects the registered suite; otherwise the
+		// structured description builds one; otherwise nil (rejected by the library)
+		suiteArgsSeen = append(suiteArgsSeen, g)
 		if !strings.Contains(g, "call(github.com/ja7ad/otp.MustRawSuite; $raw_suite)") {
 			return "raw_suite does not select the registered suite of that name: " + clip(g, 200)
 		}
 		if !strings.Contains(g, "call(github.com/ja7ad/otp.NewSuite;") {
 			return "the structured suite description is not used: " + clip(g, 200)
+		}
+		// precedence, read off the gated term: ite(raw_suite == ""; <structured>; MustRawSuite(raw_suite))
+		rawEmpty := []string{`bin(==; const(""); $raw_suite)`, `bin(==; $raw_suite; const(""))`}
+		rawSet := []string{`bin(!=; const(""); $raw_suite)`, `bin(!=; $raw_suite; const(""))`}
+		must := "call(github.com/ja7ad/otp.MustRawSuite; $raw_suite)"
+		okTop := false
+		for _, cnd := range rawEmpty {
+			if strings.HasPrefix(g, "ite("+cnd+"; ") && strings.HasSuffix(g, "; "+must+")") {
+				okTop = true
+			}
+		}
+		for _, cnd := range rawSet {
+			if strings.HasPrefix(g, "ite("+cnd+"; "+must+"; ") {
+				okTop = true
+			}
+		}
+		if !okTop {
+			return "a given raw_suite does not take precedence over the structured description (the two endpoints must resolve the suite alike): " + clip(g, 200)
 		}
 		return ""
 	}
@@ -474,6 +597,9 @@ func restRules(c *Check, w *World, tb *TB, ef *Effects, pfx string, only []strin
 	}
 	checkArgs("/ocra/generate", "GenerateOCRA", []interface{}{secretForms, suiteArg, inputArg}, "Code")
 	checkArgs("/ocra/validate", "ValidateOCRA", []interface{}{secretForms, []string{"$code"}, suiteArg, inputArg}, "Valid")
+	if len(suiteArgsSeen) == 2 {
+		c.Decide(suiteArgsSeen[0] == suiteArgsSeen[1], pfx+".2", "api", "ocra-suite-resolution-agrees", "/ocra/generate and /ocra/validate resolve the suite from the request identically", "/ocra/generate and /ocra/validate resolve the suite differently: a code generated for a request need not validate for the same request", "")
+	}
 	for _, path := range []string{"/ocra/generate", "/ocra/validate"} {
 		checkArgs(path, "NewSuite", []interface{}{suiteSpecs()}, "")
 		checkArgs(path, "MustRawSuite", []interface{}{[]string{"$raw_suite"}}, "")
